@@ -89,3 +89,13 @@ def cases(tier, seed, ctx=None):
         for _ in range(rng.choice([1, 1, 2, 4])):
             conns.append([r, rng.choice([0, 1, len(r) // 2, len(r) - 3, len(r)]), rng.below(5)])
         yield ("life", [kind, conns, rng.below(2)], "loopback-k%d" % kind)
+
+    # proxied connections torn down at every stage of the upstream exchange (family proxy: the harness deletes the HTTP
+    # socket while the upstream socket is connecting, connected, mid-response or closed): ending them must not crash
+    import gen_c13
+    cs = list(gen_c13.cases("quick", seed + 5, ctx))
+    step = max(1, len(cs) // (40 if tier == "quick" else 200))
+    for j, (fam, val, tag) in enumerate(cs[::step]):
+        if j % 2 and val[3] and val[3][-1] == [1]:
+            val = val[:3] + [val[3][:-1]] + val[4:]      # the upstream never closes: its socket is still connected at the teardown
+        yield (fam, val, "proxy-teardown")
